@@ -151,15 +151,17 @@ def extremum (better : F64 → F64 → Bool) : F64 → List Val → Except (List
     | none => .error "all arguments must be numbers".toList
     | some x => extremum better (if better x acc then x else acc) vs
 
+/-- a single array argument is flattened -/
+def minmaxArgs (σ : Store) (args : List Val) : List Val :=
+  match args with
+  | [.arr r] => σ.arrs[r]?.getD []
+  | _ => args
+
 def minmax (better : F64 → F64 → Bool) (what : String) (args : List Val) (σ : Store) : NatRes :=
   match args with
   | [] => .error (what ++ " function expects at least 1 argument").toList
-  | a0 :: rest0 =>
-    let args' : List Val :=
-      match a0, rest0 with
-      | .arr r, [] => σ.arrs[r]?.getD []
-      | _, _ => args
-    match args' with
+  | _ :: _ =>
+    match minmaxArgs σ args with
     | [] => .error (what ++ " function expects a non-empty array or list of arguments").toList
     | a :: rest =>
       match toNumber a with
@@ -189,9 +191,7 @@ def natAppend (args : List Val) (σ : Store) : NatRes :=
   match args with
   | a :: x :: xs =>
     (match a with
-     | .arr r =>
-       let (σ', v) := σ.newArr ((σ.arrs[r]?.getD []) ++ x :: xs)
-       .ok (v, σ')
+     | .arr r => .ok ((σ.newArr ((σ.arrs[r]?.getD []) ++ x :: xs)).2, (σ.newArr ((σ.arrs[r]?.getD []) ++ x :: xs)).1)
      | _ => .error "append function only works on arrays".toList)
   | _ => .error "append function expects at least 2 arguments (array and element(s))".toList
 
@@ -201,14 +201,11 @@ def natRemove (args : List Val) (σ : Store) : NatRes :=
   | [a, i] =>
     (match a with
      | .arr r =>
-       let xs := σ.arrs[r]?.getD []
        (match toInt64 i with
         | none => .error "array index must be an integer".toList
         | some k =>
-          if k < 0 || k.toNat ≥ xs.length then .error "array index out of bounds".toList
-          else
-            let (σ', v) := σ.newArr (xs.eraseIdx k.toNat)
-            .ok (v, σ'))
+          if k < 0 || k.toNat ≥ (σ.arrs[r]?.getD []).length then .error "array index out of bounds".toList
+          else .ok ((σ.newArr ((σ.arrs[r]?.getD []).eraseIdx k.toNat)).2, (σ.newArr ((σ.arrs[r]?.getD []).eraseIdx k.toNat)).1))
      | _ => .error "remove function only works on arrays".toList)
   | _ => .error "remove function expects exactly 2 arguments (array and index)".toList
 
@@ -220,21 +217,20 @@ def natDelete (args : List Val) (σ : Store) : NatRes :=
      | .obj r =>
        (match k with
         | .str key =>
-          let ps := σ.objs[r]?.getD []
-          if (ps.lookup key).isSome then
-            .ok (.obj r, { σ with objs := σ.objs.set r (ps.filter (fun p => p.1 != key)) })
+          if ((σ.objs[r]?.getD []).lookup key).isSome then
+            .ok (.obj r, { σ with objs := σ.objs.set r ((σ.objs[r]?.getD []).filter (fun p => p.1 != key)) })
           else .error ("key '".toList ++ key ++ "' not found in object".toList)
         | _ => .error "delete function expects the second argument to be a string key".toList)
      | _ => .error "delete function only works on objects".toList)
   | _ => .error "delete function expects exactly 2 arguments (object and key)".toList
 
+/-- the listing order of an object's properties -/
+def objKeys (σ : Store) (r : Nat) : List Name := sortKeys ((σ.objs[r]?.getD []).map (·.1))
+
 /-- `NativeKeysFn.Call` -/
 def natKeys (args : List Val) (σ : Store) : NatRes :=
   match args with
-  | [.obj r] =>
-    let ks := sortKeys ((σ.objs[r]?.getD []).map (·.1))
-    let (σ', v) := σ.newArr (ks.map .str)
-    .ok (v, σ')
+  | [.obj r] => .ok ((σ.newArr ((objKeys σ r).map .str)).2, (σ.newArr ((objKeys σ r).map .str)).1)
   | [_] => .error "keys function only works on objects".toList
   | _ => .error "keys function expects exactly 1 argument".toList
 
@@ -242,10 +238,8 @@ def natKeys (args : List Val) (σ : Store) : NatRes :=
 def natValues (args : List Val) (σ : Store) : NatRes :=
   match args with
   | [.obj r] =>
-    let ps := σ.objs[r]?.getD []
-    let ks := sortKeys (ps.map (·.1))
-    let (σ', v) := σ.newArr (ks.map fun k => (ps.lookup k).getD .nil)
-    .ok (v, σ')
+    .ok ((σ.newArr ((objKeys σ r).map fun k => ((σ.objs[r]?.getD []).lookup k).getD .nil)).2,
+         (σ.newArr ((objKeys σ r).map fun k => ((σ.objs[r]?.getD []).lookup k).getD .nil)).1)
   | [_] => .error "values function only works on objects".toList
   | _ => .error "values function expects exactly 1 argument".toList
 
@@ -282,22 +276,24 @@ def callPure (P : Platform) (n : Native) (args : List Val) (σ : Store) : NatRes
   | .max => minmax F64.gt "max" args σ
   | .input => .error "input".toList
 
+/-- the optional prompt of `ইনপুট`: written before the read -/
+def inputPrompt (args : List Val) (σ : Store) : Except (List Char) Store :=
+  match args with
+  | [.str p] => .ok (σ.print p)
+  | [_] => .error "input function's argument must be a string or []rune".toList
+  | _ => .ok σ
+
 /-- `NativeInputFn.Call`: the prompt is written before the read, so it stays when the read fails -/
 def callInput (args : List Val) (σ : Store) : Store × Except (List Char) Val :=
   match args with
   | _ :: _ :: _ => (σ, .error "input function accepts at most 1 argument".toList)
   | _ =>
-    let prompted : Except (List Char) Store :=
-      match args with
-      | [.str p] => .ok (σ.print p)
-      | [_] => .error "input function's argument must be a string or []rune".toList
-      | _ => .ok σ
-    match prompted with
+    match inputPrompt args σ with
     | .error m => (σ, .error m)
     | .ok σ1 =>
       match readLine σ1.input with
       | none => (σ1, .error "failed to read input: EOF".toList)
-      | some (line, rest) => (σ1.consume rest, .ok (.str (trimSpace line)))
+      | some lr => (σ1.consume lr.2, .ok (.str (trimSpace lr.1)))
 
 /-- `Callable.Call` of a built-in: new store and the value or the returned `error` -/
 def callNative (P : Platform) (n : Native) (args : List Val) (σ : Store) : Store × Except (List Char) Val :=
